@@ -105,7 +105,24 @@ class Session:
         self.w._feed_noise(self.sock)
         return len(self.w.ndev.received)
 
+    deliver_error: str | None = None
+    RECYCLED = [False]  # deliver through a transport that hands its one receive buffer (a bytearray) to data_received and reuses it
+
     def deliver(self, data: bytes) -> None:
+        if self.RECYCLED[0] and data:
+            proto = self.w.transports[-1].get_protocol()
+            if not hasattr(self, "_rxbuf"):
+                self._rxbuf = bytearray()
+            try:
+                self._rxbuf[:] = data
+                proto.data_received(self._rxbuf)
+                self._rxbuf[:] = b"\xee" * len(data)  # the next read lands in the same storage
+            except Exception as e:  # noqa: BLE001
+                # the transport cannot reuse its own buffer, or data_received failed on a valid stream
+                self.deliver_error = f"{type(e).__name__}: {e}"
+                self._rxbuf = bytearray()
+            self.w.drain()
+            return
         self.w.io_chunk(self.sock, data)
         self.w.drain()
 
